@@ -148,14 +148,21 @@ impl Gossip {
     pub async fn stream(&self, topic: Topic) -> Result<GossipHandle, GossipError> {
         let max_message_size = self.config.max_message_size;
 
+        // Hold the lock over the whole call: concurrent calls for the same topic must not both
+        // find "no active handle" and subscribe twice (each with its own reference counter).
+        let mut senders = self.senders.write().await;
+
         // Check if there's already a handle for this topic and clone it.
         //
         // If this handle exists but the topic counter is zero we know that all previous handles
         // have been dropped and we didn't clean up yet. In this case we'll ignore the existing
         // entry in "senders" and continue to create a new gossip session, overwriting the "dead"
         // entries.
-        if let Some((to_gossip_tx, from_gossip_tx, guard)) = self.senders.read().await.get(&topic)
-            && guard.has_subscriptions()
+        //
+        // Checking for references and taking a new one needs to be a single atomic step,
+        // otherwise the last handle can be dropped (and the overlay left) in between.
+        if let Some((to_gossip_tx, from_gossip_tx, guard)) = senders.get(&topic)
+            && let Some(guard) = guard.try_clone()
         {
             #[cfg(p2panda_p2panda_verif)]
             crate::verif_gate::gate("gossip_stream_after_check").await;
@@ -165,7 +172,7 @@ impl Gossip {
                 max_message_size,
                 to_gossip_tx.clone(),
                 from_gossip_tx.clone(),
-                guard.clone(),
+                guard,
             ));
         }
 
@@ -205,7 +212,6 @@ impl Gossip {
         //
         // `from_gossip_tx` is used to create a broadcast receiver when the user calls
         // `subscribe()` on `GossipHandle`.
-        let mut senders = self.senders.write().await;
         senders.insert(
             topic,
             (
@@ -437,6 +443,25 @@ impl TopicDropGuard {
     /// Returns true if there's still one or more references for this topic used.
     fn has_subscriptions(&self) -> bool {
         self.counter() >= INITIAL_COUNTER
+    }
+
+    /// Clone guard and increment the reference counter, but only if there's still one or more
+    /// references for this topic used. Returns `None` otherwise.
+    fn try_clone(&self) -> Option<Self> {
+        self.counter
+            .fetch_update(
+                std::sync::atomic::Ordering::SeqCst,
+                std::sync::atomic::Ordering::SeqCst,
+                |counter| (counter >= INITIAL_COUNTER).then_some(counter + 1),
+            )
+            .ok()?;
+
+        Some(Self {
+            topic: self.topic,
+            counter: self.counter.clone(),
+            actor_ref: self.actor_ref.clone(),
+            ignore_drop: false,
+        })
     }
 
     /// Clone guard, but don't increment reference counter.
